@@ -7,6 +7,7 @@ import PM.Step
 import Proofs.StepToks
 import Proofs.MarkEffect
 import Proofs.MarkPlan
+import PM.TypePlan
 import Props.C14
 namespace PM.C13
 open PM
@@ -311,5 +312,148 @@ theorem planAddMark_exact (S : Schema) (tr tr' : Tr) (f t : Nat) (m : Mark)
     rw [if_pos hc, C14.addToSet_spec]
   · intro hc
     rw [if_neg hc]
+
+/-! ### the node-level planners (PM/TypePlan.lean): `set_node_markup`, `set_block_type` -/
+
+theorem Tr.step_spec (S : Schema) (tr tr' : Tr) (s : Step) (h : tr.step S s = .ok tr') :
+    S.apply s tr.doc = .ok tr'.doc ∧ tr'.steps = tr.steps ++ [s] := by
+  unfold Tr.step at h
+  split at h
+  · rename_i d hd
+    simp only [Except.ok.injEq] at h
+    subst h
+    exact ⟨hd, rfl⟩
+  · simp at h
+
+theorem PSt.step_spec (S : Schema) (st st' : PSt) (s : Step) (h : st.step S s = .ok st') :
+    S.apply s st.tr.doc = .ok st'.tr.doc ∧ st'.tr.steps = st.tr.steps ++ [s] := by
+  unfold PSt.step at h
+  cases ht : st.tr.step S s with
+  | error e => rw [ht] at h; simp [Except.map] at h
+  | ok tr' =>
+    rw [ht] at h
+    simp only [Except.map, Except.ok.injEq] at h
+    subst h
+    exact Tr.step_spec S st.tr tr' s ht
+
+/-- the children-level conclusion of `retype_keeps_children` for a node spanning `[s, e)` -/
+def KeepsChildren (doc doc' : Node) (s e : Nat) (newNode : Node) : Prop :=
+  (ftoks doc'.kids).length = (ftoks doc.kids).length ∧
+  ((ftoks doc'.kids).drop (s + 1)).take (e - s - 2) = ((ftoks doc.kids).drop (s + 1)).take (e - s - 2) ∧
+  (ftoks doc'.kids).take s = (ftoks doc.kids).take s ∧
+  (ftoks doc'.kids).drop e = (ftoks doc.kids).drop e ∧
+  (ftoks doc'.kids)[s]? = newNode.toks.head?
+
+/-- **the step both retyping operations emit keeps the children**: `retypeStep s e newNode`
+    (gap = everything between the node's open and close token, slice = the new empty node) leaves
+    the inner tokens, the prefix and the suffix in place and puts the new open token at `s` -/
+theorem retypeStep_keeps_children (S : Schema) (doc doc' : Node) (s e : Nat) (newNode : Node)
+    (hnew : newNode.kids = [] ∧ newNode.isLeaf = false ∧ newNode.isText = false)
+    (hse : s + 2 ≤ e)
+    (h : S.apply (retypeStep s e newNode) doc = .ok doc') : KeepsChildren doc doc' s e newNode := by
+  have e1 : e = s + (e - s) := by omega
+  have e2 : e - 1 = s + (e - s) - 1 := by omega
+  unfold retypeStep at h
+  rw [e2] at h
+  conv at h => lhs; arg 2; arg 2; rw [e1]
+  have := retype_keeps_children S doc doc' s (e - s) newNode hnew (by omega) h
+  unfold KeepsChildren
+  rw [← e1] at this
+  exact this
+
+theorem createNode_shape (S : Schema) (ty : TypeId) (attrs : Attrs) (marks : Marks) (nn : Node)
+    (hleaf : (S.nodeType ty).isLeaf = false) (h : S.createNode ty attrs marks = .ok nn) :
+    nn.kids = [] ∧ nn.isLeaf = false ∧ nn.isText = false := by
+  unfold Schema.createNode at h
+  simp only [hleaf] at h
+  split at h
+  · simp at h
+  · cases hc : computeAttrs (S.nodeType ty).attrs attrs with
+    | error e => rw [hc] at h; simp [Except.map] at h
+    | ok a =>
+      rw [hc] at h
+      simp only [Except.map, Bool.false_eq_true, if_false, Except.ok.injEq] at h
+      subst h
+      simp [Node.kids, Node.isLeaf, Node.isText]
+
+/-- **`Transform.set_node_markup` on a node with content keeps its children**: the operation emits
+    exactly one step, `retypeStep pos (pos + size) newNode`, where `newNode` is the freshly created
+    empty node of the new type, and that step keeps the children, the prefix and the suffix
+    (the new type is required not to be a leaf type, as in the documented use) -/
+theorem setNodeMarkup_keeps_children (S : Schema) (st st' : PSt) (pos : Nat) (ty : Option TypeId)
+    (attrs : Attrs) (marks : Option Marks) (node : Node)
+    (hnode : st.tr.doc.nodeAt pos = .ok (some node)) (hnl : node.isLeaf = false)
+    (hty : (S.nodeType (ty.getD (S.tyOf node))).isLeaf = false)
+    (h : st.setNodeMarkup S pos ty attrs marks = .ok st') :
+    ∃ newNode, st'.tr.steps = st.tr.steps ++ [retypeStep pos (pos + node.size) newNode] ∧
+      S.validContent (ty.getD (S.tyOf node)) node.kids = true ∧
+      KeepsChildren st.tr.doc st'.tr.doc pos (pos + node.size) newNode := by
+  unfold PSt.setNodeMarkup at h
+  rw [hnode] at h
+  simp only at h
+  split at h
+  · simp at h
+  · rename_i newNode hcreate
+    rw [if_neg (by simp [hnl])] at h
+    split at h
+    · simp at h
+    · rename_i hvalid
+      obtain ⟨ha, hs⟩ := PSt.step_spec S st st' _ h
+      have hsize : 2 ≤ node.size := by
+        cases node with
+        | text => simp [Node.isLeaf] at hnl
+        | leaf => simp [Node.isLeaf] at hnl
+        | elem => simp [Node.size]
+      refine ⟨newNode, hs, by simpa using hvalid, ?_⟩
+      exact retypeStep_keeps_children S _ _ pos (pos + node.size) newNode
+        (createNode_shape S _ _ _ _ hty hcreate) (by omega) ha
+
+/-- **`Transform.set_block_type` keeps the children of every block it converts**: whenever the
+    callback converts the visited textblock (its state changes), it has first run
+    `clear_incompatible` (which removes exactly the content the new type cannot hold — see the tie)
+    and then emitted `retypeStep s e newNode` at the mapped positions of the block; that step keeps
+    everything between the block's open and close token, the prefix and the suffix -/
+theorem setBlockType_keeps_children (S : Schema) (ty : TypeId) (attrs : Attrs) (mapFrom : Nat)
+    (st st2 : PSt) (skip skip2 : Nat) (v : NV)
+    (hty : (S.nodeType ty).isLeaf = false)
+    (h : setBlockTypeVisit S ty attrs mapFrom (.ok (st, skip)) v = .ok (st2, skip2)) :
+    (st2 = st ∧ skip2 = skip) ∨
+    ∃ st1 newNode,
+      st.clearIncompatible S (st.mapFrom mapFrom v.pos 1) ty = .ok st1 ∧
+      S.createNode ty attrs v.node.marks = .ok newNode ∧
+      skip2 = v.pos + v.node.size ∧
+      st2.tr.steps = st1.tr.steps ++
+        [retypeStep (st1.mapFrom mapFrom v.pos 1) (st1.mapFrom mapFrom (v.pos + v.node.size) 1) newNode] ∧
+      (st1.mapFrom mapFrom v.pos 1 + 2 ≤ st1.mapFrom mapFrom (v.pos + v.node.size) 1 →
+        KeepsChildren st1.tr.doc st2.tr.doc (st1.mapFrom mapFrom v.pos 1)
+          (st1.mapFrom mapFrom (v.pos + v.node.size) 1) newNode) := by
+  unfold setBlockTypeVisit at h
+  simp only at h
+  split at h
+  · simp only [Except.ok.injEq, Prod.mk.injEq] at h
+    exact .inl ⟨h.1.symm, h.2.symm⟩
+  · split at h
+    · simp only [Except.ok.injEq, Prod.mk.injEq] at h
+      exact .inl ⟨h.1.symm, h.2.symm⟩
+    · split at h
+      · simp at h
+      · simp only [Except.ok.injEq, Prod.mk.injEq] at h
+        exact .inl ⟨h.1.symm, h.2.symm⟩
+      · split at h
+        · simp at h
+        · rename_i st1 hclear
+          split at h
+          · simp at h
+          · rename_i nn hnn
+            cases hs : st1.step S (retypeStep (st1.mapFrom mapFrom v.pos 1)
+                (st1.mapFrom mapFrom (v.pos + v.node.size) 1) nn) with
+            | error e => rw [hs] at h; simp [Except.map] at h
+            | ok st2' =>
+              rw [hs] at h
+              simp only [Except.map, Except.ok.injEq, Prod.mk.injEq] at h
+              obtain ⟨rfl, rfl⟩ := h
+              obtain ⟨ha, hst⟩ := PSt.step_spec S st1 st2' _ hs
+              exact .inr ⟨st1, nn, hclear, hnn, rfl, hst, fun hse =>
+                retypeStep_keeps_children S _ _ _ _ nn (createNode_shape S _ _ _ _ hty hnn) hse ha⟩
 
 end PM.C13
